@@ -50,6 +50,8 @@ def run(ck: Check) -> int:
             ck.function(getattr(adt, nm).__dict__['execute'], name=f'pytezos.michelson.instructions.adt:{nm}.execute')
     from props.C17_P import run_P
     run_P(ck)
+    from props.C01_I import run_I_annot
+    run_I_annot(ck)      # every instruction case of props/C01_I.py again on operands whose run-time classes are ANNOTATED: same results / failures / types
     ck.assume('annotations are placed only where Michelson accepts them: field annotations on components of pair/or, type annotations anywhere')
     ck.trust('bounded/C17_annot.py (re-annotation of type arguments), bounded/C01_gen.py (programs), bounded/C01_engine.py (observation)')
     ck.rule('case = (program, typed input stack) x re-annotation; class = theme + top-level primitives; re-annotations: every node of every '
@@ -89,7 +91,11 @@ def run(ck: Check) -> int:
     ck.note(f'{len(results)} (program, input) cases x re-annotations = {n_var} relational evaluations')
     ck.exhaustive = False
     return ck.finish('other',
-                     'S (props/C17_P.py): the comb functions iter_comb / unpairn_comb / access_comb / update_comb / to_micheline_value and GET k / '
+                     'P/S (props/C01_I.py, annotated world): the real execute methods of CAR CDR PAIR UNPAIR PAIR n UNPAIR n GET n UPDATE n LEFT RIGHT CONS NIL '
+                     'SOME NONE EMPTY_SET EMPTY_MAP GET MEM UPDATE GET_AND_UPDATE IF IF_NONE IF_LEFT IF_CONS DIP LOOP LOOP_LEFT ITER MAP EQ..GE SIZE UNIT SLICE '
+                     'CONCAT JOIN_TICKETS SPLIT_TICKET on opaque / symbolic operands whose RUN-TIME CLASSES carry field and type annotations (as values '
+                     'taken out of an annotated pair do): same reference results, no additional failure, same result types modulo annotations as in '
+                     'the unannotated world; S (props/C17_P.py): the comb functions iter_comb / unpairn_comb / access_comb / update_comb / to_micheline_value and GET k / '
                      'UPDATE k / UNPAIR m on the real ASTs over opaque components equal the annotation-blind specification for every annotation '
                      'placement of a covering set on combs of 2..5 (6) components; R (bounded): outcome, result types, result values and PACK bytes of the real interpreter are invariant under re-annotation '
                      '(single nodes to depth 3 x {%a, :t, both}, all nodes, n-ary spelling) of stack types and type arguments, on type-directed '
